@@ -52,6 +52,8 @@ type PeerConnection struct {
 	signalingState           SignalingState
 	iceConnectionState       atomic.Value // ICEConnectionState
 	connectionState          atomic.Value // PeerConnectionState
+	// connectionStateMu makes computing the connection state and storing it one step
+	connectionStateMu sync.Mutex
 
 	idpLoginURL *string
 
@@ -836,6 +838,11 @@ func (pc *PeerConnection) updateConnectionState(
 	iceConnectionState ICEConnectionState,
 	dtlsTransportState DTLSTransportState,
 ) {
+	// A caller that computed a state before the connection was closed must not
+	// store it after close() stored closed: compute and store under one lock.
+	pc.connectionStateMu.Lock()
+	defer pc.connectionStateMu.Unlock()
+
 	connectionState := PeerConnectionStateNew
 	switch {
 	// The RTCPeerConnection object's [[IsClosed]] slot is true.
